@@ -78,8 +78,8 @@ def mechanism(f, exp, got_default, got_noinfer):
 def main(ck):
     tree = cy.Tree('C40')
     rng = ck.rng('infer')
-    nfuncs = ck.pick(360, 6000)
-    per_mod = ck.pick(90, 250)
+    nfuncs = ck.pick(360, 1800)
+    per_mod = ck.pick(45, 120)
     ninputs = ck.pick(30, 30)
     mods = {}
     fmap = {}
@@ -152,7 +152,11 @@ def main(ck):
                 {'function_source': infergen.HEADER + f['src'], 'ext': '.py', 'case': m['case'], 'compare': COMPARE,
                  'cflags': [], 'directives': {}, 'expected': m['exp'], 'observed': m['got'],
                  'observed_infer_types_false': got_n, 'detail': info})
-        for m in res_n.mismatches:
+        truncated = res_d.nmismatch > len(res_d.mismatches) or res_n.nmismatch > len(res_n.mismatches)
+        if truncated:
+            ck.note('%s: mismatch records truncated by the driver (%d/%d default, %d/%d noinfer)' % (
+                n, len(res_d.mismatches), res_d.nmismatch, len(res_n.mismatches), res_n.nmismatch))
+        for m in ([] if truncated else res_n.mismatches):
             key2 = (m['case']['f'], m['case']['a'])
             if not any((x['case']['f'], x['case']['a']) == key2 for x in res_d.mismatches):
                 # only the build without inference deviates from CPython
